@@ -326,7 +326,7 @@ func H_C01_streamid() {
 // after the file is complete (late duplicate).
 
 func H_C04_resume()      { vC04Resume([]int{5}, false) }
-func H_C04_resume_deep() { vC04Resume([]int{5, 8}, true) }
+func H_C04_resume_deep() { vC04Resume([]int{5}, true) }
 
 func vC04Resume(sizes []int, full bool) {
 	size := sizes[vChoice("sizeIdx", len(sizes))]
